@@ -8,6 +8,8 @@ import keyword
 import os
 import random
 import shutil
+import subprocess
+import sys
 import tempfile
 
 from .. import gen, hostile_c06 as H, observe, probes, refcodec
@@ -36,7 +38,14 @@ RULE = (
     "the name itself was accepted with the same fields.  Grouped-record frames: valid member descriptor frames followed by a "
     "grouped frame (ext sub-type 0x12) whose group name is each hostile type-name string; the yielded object is left alone, "
     "copied to a RecordStreamWriter (output decoded by the independent codec), asked for _desc / repr / JSON: an out-of-grammar "
-    "group name must never be yielded or re-emitted.  Seeded part: random single-character mutations of valid "
+    "group name must never be yielded or re-emitted.  Argument forms: the field list as tuple / list of lists / generator / "
+    "iter(list) / zip / map / deque / dict items view, RecordDescriptor._unpack, DynamicDescriptor, and the entry points that "
+    "take a name next to valid descriptors (merge_record_descriptors(name=), the deprecated clone form, GroupedRecord(name, "
+    "records)) - same oracle for every form.  Environment family: a compact batch of hostile definitions (every hostile field "
+    "type, hostile field / type names, valid controls) through constructor, descriptor frame and JSON line in child "
+    "interpreters started with -O, -OO, PYTHONOPTIMIZE=1/2, -I -B, -I -B -O, -X dev, other PYTHONHASHSEEDs: accepted => in "
+    "the grammar, reported == delivered, no module named by a refused definition appears in sys.modules, no tripwire file; a "
+    "failing child is inconclusive.  Seeded part: random single-character mutations of valid "
     "identifiers at random positions of random definitions, and random grammar-valid definitions (vacuity control).  A case is "
     "non-trivial when the delivery ran to an accept/reject outcome; distinct = distinct (definition fingerprint, path).  Oracle "
     "(one-directional): accepted => definition is in the hand-written reference grammar; for accepted definitions __slots__ == "
@@ -47,6 +56,8 @@ RULE = (
 )
 ASSUMPTIONS = [
     "duplicate field names are not part of the name grammar and are not generated",
+    "child interpreters always run with bytecode writing disabled (PYTHONDONTWRITEBYTECODE / -B): nothing is written under the tree under test; -S "
+    "(no site-packages: msgpack missing) is not a usable configuration",
     "the deprecated single-string definition form (parse_def) is not a delivery path",
     "a grammar-valid definition being refused is not a violation (only a vacuity control): single-segment Python keyword type names are refused today",
     "strings that cannot be encoded as UTF-8 with surrogateescape are delivered through the API and JSON paths only",
@@ -65,13 +76,20 @@ ANCHORS = [
     "flow.record.jsonpacker:JsonRecordPacker.unpack_obj",
     "flow.record.adapter.avro:schema_to_descriptor",
 ]
+# argument forms of the public constructors: the field list as tuple of tuples / list of lists / generator / iter(list) /
+# zip(types, names) / map / deque / dict items view; RecordDescriptor._unpack; DynamicDescriptor(name, names); and the
+# entry points that take a NAME next to existing valid descriptors: merge_record_descriptors(name=), the deprecated clone
+# form RecordDescriptor(name, descriptor), GroupedRecord(name, records)
+FORM_FIELD_VIAS = ("api-tuple", "api-lists", "api-gen", "api-iter", "api-zip", "api-map", "api-deque", "api-dictitems", "api-unpack", "api-dynamic")
+FORM_NAME_VIAS = ("api-merge", "api-clone", "api-grouped")
+FORM_VIAS = FORM_FIELD_VIAS + FORM_NAME_VIAS
 VIAS = ("api", "api-bytes", "stream", "stream-bin", "json", "json-plain", "avro-doc", "avro-nodoc", "api-text", "api-none", "stream-nil",
-        "json-null")
+        "json-null") + FORM_VIAS
 # definitions delivered WITHOUT a field list: the deprecated text form "<type name>\n<type> <field>;\n..." given to the
 # constructor alone / with fields=None / in a descriptor frame whose field list is nil / in a JSON descriptor line with null
 TEXT_VIAS = ("api-text", "api-none", "stream-nil", "json-null")
 # the library derives the definition itself; the oracle looks at what it reports
-REPORTED_VIAS = ("json-plain", "avro-nodoc") + TEXT_VIAS
+REPORTED_VIAS = ("json-plain", "avro-nodoc", "api-dynamic") + TEXT_VIAS
 AVRO_FROM_FLOW = {"string": "string", "varint": "long", "boolean": "boolean", "float": "float", "bytes": "bytes"}
 FLOW_FROM_AVRO = {"string": "string", "long": "varint", "boolean": "boolean", "float": "float", "bytes": "bytes"}
 _DUMMY_TRIP = "/var/tmp/frv-c06-dummy/trip/T"
@@ -236,10 +254,11 @@ def vias_for(recipe):
         if recipe.get("warm"):
             return ("api", "stream", "json", "api-text")
         if slot == "name":
-            return ("api", "api-bytes", "stream", "stream-bin", "json", "avro-doc", "avro-nodoc") + TEXT_VIAS
+            forms = FORM_VIAS if recipe.get("var") in ("whole", "last") else ()
+            return ("api", "api-bytes", "stream", "stream-bin", "json", "avro-doc", "avro-nodoc") + TEXT_VIAS + forms
         if slot == "field":
-            return VIAS
-        return ("api", "api-bytes", "stream", "stream-bin", "json", "avro-doc") + TEXT_VIAS
+            return tuple(v for v in VIAS if v not in FORM_NAME_VIAS and (v not in FORM_FIELD_VIAS or recipe.get("pos") == 0))
+        return ("api", "api-bytes", "stream", "stream-bin", "json", "avro-doc") + TEXT_VIAS + tuple(v for v in FORM_FIELD_VIAS if v != "api-dynamic")
     return VIAS
 
 
@@ -258,6 +277,10 @@ def generate(ctx):
     for rec in _grouped_recipes():
         if ctx.mine(idx):
             yield dict(rec, via="stream-grouped")
+        idx += 1
+    for j in range(len(ENV_CONFIGS)):
+        if ctx.mine(idx):
+            yield {"k": "env", "config": j, "via": "child"}
         idx += 1
     for j, (lname, lfields) in enumerate(COLLIDE_FIXED):
         for via in COLLIDE_VIAS:
@@ -565,6 +588,119 @@ def execute_collide(ctx, case):
         ctx.sample({"case": case, "legitimate": legit, "crafted": crafted, "outcome": detail["exception"]}, kind="collide:" + via)
 
 
+# ---- environment family: the same refusals in child interpreters started with other flags / settings --------------------
+# (label, interpreter flags, environment changes).  PYTHONDONTWRITEBYTECODE stays set / -B is added where the environment is
+# ignored: nothing may be written under the tree under test.
+ENV_CONFIGS = [
+    ("plain", [], {}),
+    ("-O", ["-O"], {}),
+    ("-OO", ["-OO"], {}),
+    ("PYTHONOPTIMIZE=1", [], {"PYTHONOPTIMIZE": "1"}),
+    ("PYTHONOPTIMIZE=2", [], {"PYTHONOPTIMIZE": "2"}),
+    ("-I -B", ["-I", "-B"], {}),
+    ("-I -B -O", ["-I", "-B", "-O"], {}),
+    ("-B -X dev", ["-B", "-X", "dev"], {}),
+    ("PYTHONHASHSEED=1", [], {"PYTHONHASHSEED": "1"}),
+    ("PYTHONHASHSEED=4242 -O", ["-O"], {"PYTHONHASHSEED": "4242"}),
+    ("PYTHONHASHSEED=random", [], {"PYTHONHASHSEED": "random"}),
+]
+ENV_VIAS = ("api", "stream", "json")
+VERIF_DIR = os.path.dirname(os.path.dirname(os.path.dirname(os.path.abspath(__file__))))
+CHILD = os.path.join(VERIF_DIR, "verif", "child_c06.py")
+
+
+def env_batch(st):
+    """A compact batch of definitions: every hostile field type (names outside the whitelist, dotted paths into other
+    modules, code text), some hostile field / type names, and valid controls."""
+    P = st["pools"]
+    defs = []
+    for t in P["ftype"] + P["stacked"][:8] + P["prefix"] + P["pay_dict"] + P["near_types"][:40]:
+        defs.append(("t/y", [("string", "p"), (t, "x")]))
+    for t in P["ftype"][:30]:
+        defs.append(("t/y", [(t + "[]", "x")]))
+    for n in P["near"][:20] + P["reserved"] + P["pay_nows"] + P["kw"][:3]:
+        defs.append(("t/f", [("varint", "p"), ("string", n)]))
+    for n in P["near"][:12] + P["pay_cr"] + P["pay_class"][:4] + P["tname"]:
+        defs.append((n, [("string", "x")]))
+    defs += [("env/valid", [("string", "x"), ("net.ipaddress[]", "ips")]), ("a", []), ("a/b/c", [("digest", "class"), ("path", "p")]),
+             ("env/v2", [(t, "f%d" % i) for i, t in enumerate(st["whitelist"])])]
+    return defs
+
+
+def execute_env(ctx, case):
+    st = ctx.state
+    wl = st["whitelist"]
+    label, flags, envchg = ENV_CONFIGS[case["config"]]
+    defs = env_batch(st)
+    tmp = os.path.join(st["tmp"], "child%d" % case["config"])
+    os.makedirs(tmp, exist_ok=True)
+    env = dict(os.environ)
+    env["PYTHONDONTWRITEBYTECODE"] = "1"
+    env.update(envchg)
+    job = {"defs": [[n, [[t, f] for t, f in fl]] for n, fl in defs], "vias": list(ENV_VIAS), "tmp": tmp}
+    repo = os.environ.get("VERIF_REPO", "/repo")
+    try:
+        p = subprocess.run([sys.executable] + flags + ["-W", "ignore", CHILD, repo, VERIF_DIR], input=json.dumps(job), capture_output=True, text=True,
+                           timeout=240, env=env, cwd=tmp)
+    except subprocess.TimeoutExpired:
+        ctx.require(False, "child interpreter (%s) exceeded its watchdog" % label)
+        return
+    try:
+        out = json.loads(p.stdout) if p.returncode == 0 else None
+    except ValueError:
+        out = None
+    if out is None:
+        ctx.require(False, "child interpreter (%s) failed: exit %s %s" % (label, p.returncode, p.stderr[-300:]))
+        return
+    ctx.event("env_children")
+    ctx.cell("env", label, "optimize=%s" % out.get("optimize"), "isolated=%s" % out.get("isolated"))
+    if os.path.realpath(repo) != "/repo" and os.path.realpath(out.get("flow_record", "")).startswith("/repo"):
+        ctx.require(False, "child interpreter (%s) imported flow.record from /repo instead of the tree under test" % label)
+        return
+    accepted_valid = 0
+    for r in out["results"]:
+        i, via, kind = r[0], r[1], r[2]
+        if kind == "N":
+            continue
+        ctx.ev()
+        ctx.event("delivered:child-" + via)
+        name, fields = defs[i]
+        ok, reason = H.valid_definition(name, fields, wl)
+        detail = {"interpreter": label, "via": via, "name": name, "fields": fields}
+        if kind == "A":
+            rfields = [tuple(x) for x in r[4]] if isinstance(r[4], list) else r[4]
+            if not ok:
+                ctx.violation(None, "definition with an invalid %s accepted via %s in a child interpreter (%s)" % (reason, via, label),
+                              detail=dict(detail, reported=[r[3], rfields]))
+            elif (r[3], rfields) != (name, [tuple(f) for f in fields]):
+                ctx.violation(None, "child interpreter: reported definition differs from the definition delivered", detail=dict(detail, reported=[r[3], rfields]))
+            else:
+                accepted_valid += 1
+        else:
+            ctx.event("invalid_rejected" if not ok else "env_valid_refused")
+        ctx.nontrivial("env", label, via, fp64(name, fields))
+    ctx.require(accepted_valid > 0, "child interpreter (%s) accepted no valid control definition" % label)
+    # modules imported on behalf of a hostile definition
+    type_strings = set()
+    for name, fields in defs:
+        if not H.valid_definition(name, fields, wl)[0]:
+            for t, _ in fields:
+                type_strings.add(t[:-2] if t.endswith("[]") else t)
+    named = []
+    for m in out["new_modules"]:
+        short = m[len("flow.record.fieldtypes."):] if m.startswith("flow.record.fieldtypes.") else m
+        if any(ts == short or ts.startswith(short + ".") for ts in type_strings if ts):
+            named.append(m)
+    ctx.note_add("env_new_modules_unrelated", len(out["new_modules"]) - len(named))
+    if named:
+        ctx.violation(None, "child interpreter (%s): modules were imported on behalf of a refused definition" % label, detail={"interpreter": label, "modules": named})
+    for tp in (st["trip"], os.path.join(tmp, os.path.basename(st["trip_mangled"]))):
+        if os.path.exists(tp):
+            os.unlink(tp)
+            ctx.violation(None, "tripwire file was created by a child interpreter (%s)" % label, detail={"interpreter": label})
+    ctx.sample({"case": case, "interpreter": label, "results": len(out["results"]), "new_modules": out["new_modules"][:10]}, kind="env:" + label)
+
+
 # ---- grouped-record frames: the group name is a record type name too -------------------------------------
 GROUP_VALID_NAMES = ["group/x", "g", "a/b/c", "Record", "args/kwargs", "G1_/x9", "class/x", "x/class", "group", "t", "class", "None"]
 
@@ -758,6 +894,8 @@ def _deliver(st, via, name, fields):
         return [(RecordDescriptor(name, [(t, n) for t, n in fields]), None)]
     if via == "api-bytes":
         return [(RecordDescriptor(_enc(name), [(_enc(t), _enc(n)) for t, n in fields]), None)]
+    if via in FORM_VIAS:
+        return [(_deliver_form(via, name, [(t, n) for t, n in fields]), None)]
     if via in TEXT_VIAS:
         text = definition_text(name, fields)
         if via == "api-text":
@@ -871,6 +1009,49 @@ def _registry(reader, recs):
             seen.add(id(d))
             out.append((d, None))
     return out
+
+
+def _deliver_form(via, name, fields):
+    import collections
+
+    import flow.record.base as base
+    from flow.record import GroupedRecord, RecordDescriptor
+
+    if via == "api-tuple":
+        return RecordDescriptor(name, tuple(fields))
+    if via == "api-lists":
+        return RecordDescriptor(name, [[t, n] for t, n in fields])
+    if via == "api-gen":
+        return RecordDescriptor(name, ((t, n) for t, n in fields))
+    if via == "api-iter":
+        return RecordDescriptor(name, iter(list(fields)))
+    if via == "api-zip":
+        return RecordDescriptor(name, zip([t for t, _ in fields], [n for _, n in fields]))
+    if via == "api-map":
+        return RecordDescriptor(name, map(tuple, [[t, n] for t, n in fields]))
+    if via == "api-deque":
+        return RecordDescriptor(name, collections.deque(fields))
+    if via == "api-dictitems":
+        d = {n: t for t, n in fields}
+        if len(d) != len(fields):
+            raise NotApplicable("names not distinct")
+        return RecordDescriptor(name, ((t, n) for n, t in d.items()))
+    if via == "api-unpack":
+        return RecordDescriptor._unpack(name, tuple(fields))
+    if via == "api-dynamic":
+        return base.DynamicDescriptor(name, (n for _, n in fields))
+    # entry points that take a name next to VALID descriptors
+    try:
+        inner = RecordDescriptor("c06/inner", fields)
+    except Exception:  # noqa: BLE001 - these forms cannot carry an invalid field list
+        raise NotApplicable("fields not valid")
+    if via == "api-merge":
+        return base.merge_record_descriptors((inner,), name=name)
+    if via == "api-clone":
+        return RecordDescriptor(name, inner)
+    if via == "api-grouped":
+        return GroupedRecord(name, [inner()])._desc
+    raise NotApplicable(via)
 
 
 def _json_hash(name, fields):
@@ -1045,6 +1226,8 @@ def execute(ctx, case):
         return execute_collide(ctx, case)
     if case["k"] == "grouped":
         return execute_grouped(ctx, case)
+    if case["k"] == "env":
+        return execute_env(ctx, case)
     st = ctx.state
     wl = st["whitelist"]
     via = case["via"]
@@ -1168,6 +1351,8 @@ def execute(ctx, case):
                                       detail=dict(detail_def, reported={"name": rname, "fields": rfields}, denoted=denoted))
                         continue
                     want_names = [n for _, n in rfields]
+                elif via == "api-dynamic":
+                    want_names = [n for _, n in fields]
                 else:
                     want_names = [n for _, n in fields if isinstance(n, str) and not n.startswith("_")]
                 if [n for _, n in rfields] != want_names:
@@ -1222,7 +1407,8 @@ def execute(ctx, case):
                 continue
             rf = denoted[1]
         elif via in REPORTED_VIAS:
-            rf = [("string" if via == "json-plain" else _avro_reported_type(t), n) for t, n in fields if not n.startswith("_")]
+            rf = [("dynamic", n) for _, n in fields] if via == "api-dynamic" else \
+                [("string" if via == "json-plain" else _avro_reported_type(t), n) for t, n in fields if not n.startswith("_")]
         tw = twin_shape(st, rf, wl)
         if tw is None:
             ctx.event("twin_unavailable")
